@@ -135,6 +135,15 @@ def expr(node, cx):
         raise Untranslatable('subscript')
     if isinstance(node, ast.Call):
         fn = node.func
+        # numpy wrappers that do not change the integer value: np.array(x, ...), array(x, ...), x.astype(...), x.tobytes()
+        if isinstance(fn, ast.Attribute) and fn.attr in ('astype', 'tobytes', 'tostring') :
+            return expr(fn.value, cx)
+        if ((isinstance(fn, ast.Attribute) and fn.attr == 'array' and isinstance(fn.value, ast.Name) and fn.value.id in ('np', 'numpy'))
+                or (isinstance(fn, ast.Name) and fn.id == 'array')) and node.args:
+            a0 = node.args[0]
+            if isinstance(a0, ast.List) and len(a0.elts) == 1:
+                a0 = a0.elts[0]
+            return expr(a0, cx)
         if isinstance(fn, ast.Name) and fn.id in ('int', 'float') and len(node.args) == 1:
             a = node.args[0]
             if fn.id == 'int' and isinstance(a, ast.BinOp) and isinstance(a.op, ast.Div):
